@@ -7,6 +7,7 @@ import types
 
 import numpy as np
 import onnx
+from onnx import helper
 
 from vf import compare, modelgen, optcommon, scriptgen, wellformed
 from vf.hyp import drive, st
@@ -30,6 +31,65 @@ TIMEOUT = {"quick": 1500, "thorough": 5 * 3600}
 CFG = {"weird_names": True, "zero_dims": True, "value_info": False, "max_nodes": 8, "scan_outputs": False,
        "disable": ("g_sequence", "g_function_call"), "overridable": False}
 OPTS = ["rename", "use_operators", "inline_const", "skip_initializers"]
+
+
+def _effective_attr_diff(before, after):
+    from collections import Counter
+
+    def settings(m):
+        ver = {o.domain or "": o.version for o in m.opset_import}
+        out = {}
+
+        def walk(nodes):
+            for n in nodes:
+                for a in n.attribute:
+                    if a.type == onnx.AttributeProto.GRAPH:
+                        walk(a.g.node)
+                if n.domain not in ("", "ai.onnx") or n.op_type in ("Constant", "ConstantOfShape", "If", "Loop", "Scan", "Cast", "CastLike"):
+                    continue
+                try:
+                    sch = onnx.defs.get_schema(n.op_type, ver.get("", 1), "")
+                except Exception:  # noqa: BLE001
+                    continue
+                eff = {}
+                for name, ad in sch.attributes.items():
+                    if ad.type in (onnx.AttributeProto.INT, onnx.AttributeProto.FLOAT, onnx.AttributeProto.STRING, onnx.AttributeProto.INTS) and ad.default_value.name:
+                        eff[name] = helper.get_attribute_value(ad.default_value)
+                for a in n.attribute:
+                    if a.ref_attr_name:
+                        eff[a.name] = ("ref", a.ref_attr_name)
+                    elif a.type in (onnx.AttributeProto.INT, onnx.AttributeProto.FLOAT, onnx.AttributeProto.STRING, onnx.AttributeProto.INTS):
+                        eff[a.name] = helper.get_attribute_value(a)
+                key = tuple(sorted((k, repr(list(v) if isinstance(v, (list, tuple)) or hasattr(v, "__len__") and not isinstance(v, (str, bytes)) else v)) for k, v in eff.items()))
+                out.setdefault(n.op_type, Counter())[key] += 1
+
+        walk(m.graph.node)
+        return out
+
+    sb, sa = settings(before), settings(after)
+    for opt, cb in sorted(sb.items()):
+        ca = sa.get(opt)
+        if ca is None or sum(ca.values()) != sum(cb.values()) or ca == cb:
+            continue
+        lost, gained = list((cb - ca).elements())[:1], list((ca - cb).elements())[:1]
+        return opt, f"{opt}: {lost} -> {gained}"
+    return None
+
+
+def _plant_old_opset_attr(g):
+    import numpy as np
+
+    if not g.set_opset(g.pick([11, 12, 12])):
+        return None
+    rank = g.pick([2, 3, 3, 4])
+    x = g.add_input(np.dtype("float32"), tuple(g.pick([1, 2, 3]) for _ in range(rank)))
+    op = g.pick(["Softmax", "LogSoftmax", "Hardmax", "Softmax"])
+    ax = g.pick([-1, -1, -1, rank - 1, 1, 0, None])
+    r = g.emit(op, [x], **({} if ax is None else {"axis": ax}))
+    g.features.add(f"old_opset_attr:{op}:axis={ax}")
+    if r:
+        g.__dict__.setdefault("forced", []).extend(r)
+    return r
 
 
 def plan(tier, seed, budget):
@@ -152,6 +212,13 @@ def check(model, opts, feeds_list):
                     break
     if verdicts:
         return verdicts, info
+    # effective attributes: for every operator type that occurs equally often before and after, the multiset of attribute settings - an
+    # omitted attribute standing for the default of the schema AT THE MODEL'S OWN OPSET - must be the same (decided on the protos: a
+    # runtime whose kernel does not honour an old default cannot mask it)
+    d_attr = _effective_attr_diff(model, new)
+    if d_attr:
+        verdicts.append((f"roundtrip:attribute_changed:{d_attr[0]}", f"{d_attr[1]}\n{text[:1200]}"))
+        return verdicts, info
     # positional renaming of feeds
     inits_b = {i.name for i in model.graph.initializer}
     inits_a = {i.name for i in new.graph.initializer}
@@ -259,7 +326,12 @@ def run_shard(spec):
         from vf.rulehosts.plant_noop import plant_if_scopes, plant_loop_scopes, plant_operator_table
 
         cfg = dict(CFG, extra_generators=[plant_if_scopes, plant_loop_scopes, plant_loop_scopes, plant_operator_table, plant_operator_table], extra_weight=2)
-        drive(st.tuples(opt_strategy, modelgen.models(cfg)), body, spec["n"] if not all16 else max(1, spec["n"] // 16), spec["seed"])
+        n_main = spec["n"] if not all16 else max(1, spec["n"] // 16)
+        drive(st.tuples(opt_strategy, modelgen.models(cfg)), body, n_main, spec["seed"])
+        # models of OLDER opsets whose nodes spell out an attribute: the exported text names the operator of the model's own opset, whose
+        # defaults are not those of the current schema (Softmax family: axis 1 with 2-D coercion before opset 13, -1 afterwards)
+        drive(st.tuples(opt_strategy, modelgen.models(dict(cfg, pre=_plant_old_opset_attr, min_inputs=0, max_inputs=1, max_nodes=3, min_nodes=0))), body,
+              max(2, n_main // 8), spec["seed"] + 13)
     else:
         def body(case):
             opts, gp = case
